@@ -38,7 +38,10 @@ Definition C05_ok (default_rule : bool) (o : osnap) : bool :=
   && forallb (fun p => negb (live p && negb (op_part p)) || op_fresh p) (os_players o)  (* who is left out is a waiting newcomer *)
   && forallb (fun p => negb (default_rule && op_part p && op_waiting p)
                        || negb (strictly_between (nmax o) (os_dealer o) (os_bb o) (op_seat p))) (os_players o)
-  && forallb (fun p => (op_missed p <=? 3)%nat) (os_players o).
+  && forallb (fun p => (op_missed p <=? 3)%nat) (os_players o)
+  (* who waits, waits for the blind: a seated-in player with chips is left out only while strictly between the button and the big blind *)
+  && forallb (fun p => negb (default_rule && live p && negb (op_part p))
+                       || strictly_between (nmax o) (os_dealer o) (os_bb o) (op_seat p)) (os_players o).
 
 Definition C05_diag (default_rule : bool) (o : osnap) : nat :=
   if negb (2 <=? length (filter op_part (os_players o)))%nat then 1
@@ -46,7 +49,9 @@ Definition C05_diag (default_rule : bool) (o : osnap) : nat :=
   else if negb (forallb (fun p => negb (live p && negb (op_part p)) || op_fresh p) (os_players o)) then 3
   else if negb (forallb (fun p => negb (default_rule && op_part p && op_waiting p)
                        || negb (strictly_between (nmax o) (os_dealer o) (os_bb o) (op_seat p))) (os_players o)) then 4
-  else if negb (forallb (fun p => (op_missed p <=? 3)%nat) (os_players o)) then 5 else 0.
+  else if negb (forallb (fun p => (op_missed p <=? 3)%nat) (os_players o)) then 5
+  else if negb (forallb (fun p => negb (default_rule && live p && negb (op_part p))
+                       || strictly_between (nmax o) (os_dealer o) (os_bb o) (op_seat p)) (os_players o)) then 6 else 0.
 
 (* ---------------- C02 ---------------- *)
 Definition seat_of_entry (o : osnap) (gi : Z) : Z := match pl o gi with Some p => op_seat p | None => -1 end.
